@@ -17,6 +17,9 @@ static void on_usr1(int) {}
 
 int main()
 {
+    // VERIF_NOSYNC=1: the program has called std::ios::sync_with_stdio(false) (as programs that do a lot of output do):
+    // std::cout then has a buffer of its own, independent of the C library's stdout buffer
+    if (std::getenv("VERIF_NOSYNC")) std::ios::sync_with_stdio(false);
     if (std::getenv("VERIF_SIGNALS")) {
         struct sigaction sa {};
         sa.sa_handler = on_usr1;
